@@ -12,7 +12,7 @@ use std::str::FromStr;
 
 const NAMES14: [&str; 2] = ["a", "lib-x"];
 const QUALS: [Option<&str>; 2] = [None, Some("any")];
-const VERSIONS: [Option<(&str, &str)>; 3] = [None, Some((">=", "1")), Some(("<<", "2:1.0-1"))];
+const VERSIONS: [Option<(&str, &str)>; 6] = [None, Some((">=", "1")), Some(("<<", "2:1.0-1")), Some(("=", "1.0~rc1")), Some(("<=", "1")), Some((">>", "1"))];
 const ARCHS14: [Option<&[&str]>; 6] = [None, Some(&[]), Some(&["amd64"]), Some(&["amd64", "i386"]), Some(&["!amd64"]), Some(&["!amd64", "!i386"])];
 /// every group shape: 1..3 terms (names x, y, z in that order), every negation pattern -> 14 shapes;
 /// profile lists: none, one group (14), two groups (first from 14, second from 4 representative shapes)
@@ -103,6 +103,24 @@ fn check_rel(v: &ly::Relation) -> Vec<Viol> {
         }
         Err(e) => out.push(viol("lossless-reads-same", ctx(&format!("lossless reader rejects: {}", e.replace('\n', "; "))))),
     }
+    // the same value assembled through the builder
+    let mut b = ly::Relation::build(&v.name);
+    if let Some(q) = &v.archqual {
+        b = b.archqual(q);
+    }
+    if let Some(a) = &v.architectures {
+        b = b.architectures(a.iter().map(|x| x.as_str()).collect());
+    }
+    if let Some((c, ver)) = &v.version {
+        b = b.version(c.clone(), &ver.to_string());
+    }
+    for g in &v.profiles {
+        b = b.profile(g.clone());
+    }
+    let built = b.build();
+    if built != *v || built.to_string() != printed {
+        out.push(viol("builder-builds-same", ctx(&format!("RelationBuilder gives {:?} printing {:?}", built, built.to_string()))));
+    }
     let conv = ll::Relation::from(v.clone());
     if conv.to_string() != printed {
         out.push(viol("conversion-prints-same", ctx(&format!("lossless::Relation::from prints {:?}", conv.to_string()))));
@@ -158,7 +176,7 @@ impl Prop for C14 {
         "exploration"
     }
     fn rule(&self, _t: Tier) -> String {
-        "full product of lossy Relation values over 2 names x {no, 'any'} qualifier x {none, >= 1, << 2:1.0-1} x 6 architecture lists (None, empty, 1-2 plain, 1-2 negated) x 71 profile lists (no group; every one-group shape of 1-3 terms with every negation pattern; two groups) (5112 values), and every Relations value of <= 2 entries x <= 2 alternatives (thorough: also 3 entries x <= 2 alternatives over a 6-element subset) over a 12-element subset; each is printed, re-read by both readers, converted lossy->lossless->lossy and Entry<->Vec; all cases distinct; non-trivial = value with at least one optional part or more than one relation".into()
+        "full product of lossy Relation values over 2 names x {no, 'any'} qualifier x {none, >= 1, << 2:1.0-1, = 1.0~rc1, <= 1, >> 1} x 6 architecture lists (None, empty, 1-2 plain, 1-2 negated) x 71 profile lists (no group; every one-group shape of 1-3 terms with every negation pattern; two groups) (10224 values, each also assembled through RelationBuilder), and every Relations value of <= 2 entries x <= 2 alternatives (thorough: also 3 entries x <= 2 alternatives over a 6-element subset) over a 12-element subset; each is printed, re-read by both readers, converted lossy->lossless->lossy and Entry<->Vec; all cases distinct; non-trivial = value with at least one optional part or more than one relation".into()
     }
     fn bounds(&self, t: Tier) -> Value {
         json!({"single_relations": menus().iter().product::<usize>(), "subset": subset().len(), "max_entries": t.pick(2, 3), "max_alternatives": 2})
@@ -179,6 +197,14 @@ impl Prop for C14 {
         // fields with `shard` entries, each of 1..=2 alternatives over the subset
         let mut sub = subset();
         let entries = shard;
+        if shard == 1 {
+            // the empty value, and one entry of three alternatives
+            f(&C14Case { field: vec![] });
+            let n = sub.len();
+            product(&[n, n, n], &mut |v| {
+                f(&C14Case { field: vec![vec![sub[v[0]], sub[v[1]], sub[v[2]]]] });
+            });
+        }
         if entries >= 3 {
             // three-entry fields: a 6-element subset (the full 12 would be 2.4e7 fields in one shard)
             sub = vec![sub[0], sub[2], sub[4], sub[6], sub[8], sub[10]];
